@@ -3,7 +3,7 @@ Spec lang/OklKernel.tla (IR, SeqRun = the sequential reading, LaunchRun = the la
 MC mc/MC_OklKernel.tla + mc/OklKernel_*.cfg; replayer harness/kern_replay.cpp (+ harness/emu);
 rendering and pipeline checks/kerncommon.py.
 """
-import os, sys, json, time, collections
+import os, re, sys, json, time, collections
 from vlib import Broken
 import kerncommon as kc
 from kerncommon import MODES, LAUNCHER_MODES
@@ -39,7 +39,7 @@ def design(ctx, thorough):
 
 def sig_features(g, extra=()):
     f = kc.features(g["k"]) - {"pointer-arg", "scalar-arg"}
-    core = [x for x in ("atomic", "shared-across-barrier", "shared", "exclusive", "tile", "dim", "nobarrier", "runtime-bounds",
+    core = [x for x in ("header-stride", "loop-header", "empty-range", "atomic-alias", "atomic", "shared-across-barrier", "shared", "exclusive", "tile", "dim", "nobarrier", "runtime-bounds",
                         "max_inner_dims", "simd_length", "explicit-barrier", "restrict", "helper-function", "for", "if",
                         "local-decl", "nested-inner", "nested-outer", "sibling-inner", "sibling-outer", "between-decl") if x in f]
     return ",".join(list(extra) + core[:4])
@@ -117,6 +117,8 @@ def run(ctx):
     # 2. kernels + argument values + predicted outputs from the spec's generator
     num = int(os.environ.get("C20_NUM", 600 if thorough else 100))
     gen = kc.generate(ctx, "mc/OklKernel_gen.cfg", num)
+    # ... and the header class, enumerated completely: every (comparison x update form) on both loop levels
+    gen += kc.generate_all(ctx, "mc/OklKernel_gen_headers.cfg" if thorough else "mc/OklKernel_gen_headers_quick.cfg")
     kc.lap(ctx, t0, "generated %d kernels" % len(gen))
     kc_argvecs = kc.spec_argvecs()
     if any(len(g["runs"]) != len(kc_argvecs) for g in gen):
@@ -180,7 +182,8 @@ def run(ctx):
         stats["race_reports"] = len(reports)
         for rp in reports:
             g = rp["g"]
-            what = "acc-update" if "acc[" in rp["line"] else "other"
+            # the racing statement updates acc, directly or through one of the rendered aliases (p, r, row)
+            what = "acc-update" if re.search(r"acc\[|\brow\[|\*p\b|\(\*p\)|\br\s*(\+=|-=|\+\+)|(\+\+|--)\s*r\b", rp["line"]) else "other"
             ctx.mismatch("data-race:%s:%s" % (rp["mode"], what),
                          "ThreadSanitizer: work-items of one group race in the translated %s kernel at `%s` (work-items run concurrently):\n%s\n%s"
                          % (rp["mode"], rp["line"], rp["report"][:1500], g["okl"] if g else ""),
@@ -208,6 +211,7 @@ def run(ctx):
         "launcher backends (cuda, hip, opencl, metal, dpcpp) run under harness/emu: real generated launcher and device source, "
         "work-groups one after another, work-items of a group as real threads with a real barrier, deterministic baton schedule; no GPU",
         "memory safety of the translated code is monitored with -fsanitize=address on exactly these runs, not proved",
-        "loop headers are `for (int v = 0; v < N; ++v)` only (header shapes are C17's subject); @tile with step 1; "
-        "@dim with plain iterator arguments"]
+        "loop headers: < <= > >= with the iterator on either side, ++ -- += s -= s (s <= 3), initial values -2..3, literal or "
+        "run-time bounds, ranges that are not multiples of the stride, empty @outer ranges; only headers whose direction agrees; "
+        "@tile with step 1 and a literal tile size; @dim with plain iterator arguments"]
     return ctx.finish(exhaustive=False)
